@@ -13,6 +13,10 @@ type GenCfg struct {
 	TxPerBlk  int      // max transaction kinds per block
 	Corrupt   int      // number of corrupted siblings to add
 	Extend    int      // max empty blocks mined on top of a header-valid corrupted block
+	// Directed adds the two shapes random growth rarely produces: an equal-length competing branch
+	// (total works differ by less than difficulty/5: a near tie in both submission orders) and a
+	// body-invalid, header-valid block extended until its branch is the heaviest of the tree.
+	Directed bool
 }
 
 // RandomNet picks hardfork heights so that short trees cross the v1-only / overlap / v2-only
@@ -37,7 +41,10 @@ func (cfg GenCfg) spec(rng *vh.RNG) Spec {
 			kinds = append(kinds, cfg.Kinds[rng.Intn(len(cfg.Kinds))])
 		}
 	}
-	return Spec{Kinds: kinds, Dt: 1 + rng.Intn(3)}
+	// block times from far below to far above the 1 s block interval, so that the per-block
+	// difficulty adjustment moves both ways and equal-length forks get different total work
+	dts := []int{8, 9, 10, 10, 10, 11, 12, 3, 25}
+	return Spec{Kinds: kinds, Dt: dts[rng.Intn(len(dts))]}
 }
 
 // GenTree grows a fork tree.
@@ -90,7 +97,77 @@ func GenTree(rng *vh.RNG, net *Net, cfg GenCfg) *Tree {
 			}
 		}
 	}
+	if cfg.Directed {
+		t.addNearTie(rng, cfg)
+		t.addInvalidHeaviest(rng)
+	}
 	return t
+}
+
+// heaviestValidLeaf returns the fully valid block with the most work.
+func (t *Tree) heaviestValidLeaf() int {
+	best := 0
+	for _, b := range t.Blocks[1:] {
+		if b.Parent != OrphanParent && t.AllValid(b.ID) && b.Work.Cmp(t.Blocks[best].Work) > 0 {
+			best = b.ID
+		}
+	}
+	return best
+}
+
+// addNearTie mines a branch of exactly the same length as the tail of the heaviest valid chain,
+// with different timestamps, so that both tips have nearly (not exactly) the same work.
+func (t *Tree) addNearTie(rng *vh.RNG, cfg GenCfg) {
+	leaf := t.heaviestValidLeaf()
+	if t.Blocks[leaf].Height < 2 {
+		return
+	}
+	d := 1 + rng.Intn(3)
+	at := leaf
+	for i := 0; i < d && at != 0; i++ {
+		at = t.Blocks[at].Parent
+	}
+	n := int(t.Blocks[leaf].Height - t.Blocks[at].Height)
+	// slow blocks if the original tail was fast and vice versa
+	slow := t.Blocks[leaf].Block.Timestamp.Sub(t.Blocks[at].Block.Timestamp).Seconds() < float64(10*n)
+	for i := 0; i < n; i++ {
+		sp := cfg.spec(rng)
+		if slow {
+			sp.Dt = 40 + rng.Intn(20)
+		} else {
+			sp.Dt = 1
+		}
+		at = t.Mine(rng, at, sp)
+	}
+}
+
+// addInvalidHeaviest corrupts the body of a transaction-carrying block on the heaviest valid
+// chain and extends the corrupted sibling with empty blocks until that branch is the heaviest.
+func (t *Tree) addInvalidHeaviest(rng *vh.RNG) {
+	leaf := t.heaviestValidLeaf()
+	var cands []int
+	for x := leaf; x != 0; x = t.Blocks[x].Parent {
+		if len(t.Blocks[x].Kinds) > 0 {
+			cands = append(cands, x)
+		}
+	}
+	if len(cands) == 0 {
+		return
+	}
+	src := cands[rng.Intn(len(cands))]
+	kind := []string{"sig", "dup-txn"}[rng.Intn(2)]
+	id := t.Corrupt(rng, src, kind)
+	if id < 0 {
+		return
+	}
+	b := t.Blocks[id]
+	if !b.HdrOk || b.BodyOk || b.Future {
+		return
+	}
+	at := id
+	for t.Blocks[at].Height <= t.Blocks[leaf].Height+1 {
+		at = t.MineEmpty(rng, at, 1)
+	}
 }
 
 // Leaves returns the ids without children.
